@@ -180,7 +180,11 @@ Definition end_data (cfg : bconfig) (b : bstate) (container : option N) : bstate
   | [] => b
   | chunks =>
       let current := concat (rev chunks) in
+      (* only text is collapsed: the content of a comment, CDATA section, doctype, declaration or
+         processing instruction (a PreformattedString class asked for by the builder) is kept *)
+      let special := match container with Some c => preformatted_cls c | None => false end in
       let current :=
+        if special then current else
         match b_pws b with
         | [] => if all_in (c_spaces cfg) current
                 then (if memN 10%N current then [10%N] else [32%N])
